@@ -294,6 +294,24 @@ def snap_digest(snap):
     return out
 
 
+def tree_dump(snap):
+    """full, replayable dump of a snapshot: path -> [type, mode, hex content | link target]"""
+    return {k: [v[0], v[1], v[2].hex() if isinstance(v[2], bytes) else v[2]] for k, v in snap.items()}
+
+
+def tree_undump(d):
+    """inverse of tree_dump, as a `tree` accepted by materialize()"""
+    tree = {}
+    for k, v in d.items():
+        if v[0] == "f":
+            tree[k] = ("f", bytes.fromhex(v[2]), v[1])
+        elif v[0] == "d":
+            tree[k] = ("d", v[1])
+        else:
+            tree[k] = ("l", v[2])
+    return tree
+
+
 def snap_diff(a, b, limit=6):
     d = []
     for k in sorted(set(a) | set(b)):
